@@ -618,3 +618,10 @@ B("S1.contains_point_long_lines", ["C06", "C09", "C03", "C05"], LINE, "bounded_c
   "horizontal / vertical lines: every lattice point of the line is on it and its lattice neighbour beside it is not, at every page position; "
   "diagonals: the end points are on the line at every page position (interior lattice points of long diagonals: parry is inexact and position dependent, assumed unreachable)",
   "4 directions x lengths 1..16 cells in half-cell steps then up to 60 cells (thorough 400) x every quarter-unit position along the line x 5 page offsets up to (399,199)")
+
+K("G0.fragment_contact_dispatch", ["C05", "C03", "C14"], FRAG, "check_fragment_contact_dispatch", "Fragment::is_contacting",
+  "only line-line, line-arc, line-circle and arc-arc pairs can be grouped, each through its own predicate; marker lines, rects and all other pairs never",
+  timeout=300, assumes=["Line::is_touching / is_touching_arc / is_touching_circle, Arc::is_touching replaced by opaque results (S1, G0.line_touching_arc_circle, C05.arc_touching)"])
+K("G0.line_touching_arc_circle", ["C05", "C14"], LINE, "check_line_touching_arc_circle", "Line::is_touching_arc / is_touching_circle",
+  "a line touches an arc iff they share an end point; a circle iff an end point lies strictly inside it", timeout=600,
+  assumes=["Line::angle_rad stubbed by any f32 (is_touching_circle computes an unused heading)"])
